@@ -241,6 +241,12 @@ def reject_cases():
     for entry in entry_points_names():
         for a in arrays:
             out.append({'op': 'reject', 'entry': entry, 'w': qs(a)})
+            # the same numbers as a Quantity (the spelling of the unit must not open a way around validation)
+            if len(a) <= 3 and all(x != 0 for x in a):
+                for unit in ('AA', 'nm'):
+                    if unit == 'nm' and entry == 'observation.sample_binned':
+                        continue        # bin centres must be hit exactly
+                    out.append({'op': 'reject', 'entry': entry, 'w': qs(a), 'unit': unit})
     return out
 
 
@@ -297,7 +303,7 @@ def run(rep):
     rep.exhaustive = False
     rep.rule = ('rejection half, exhaustive: all arrays of length 1..4 over {-1000, 0, 1000, 2000, 3000} x every public entry point with a '
                 'sampling-wavelength argument (%d of them), plus the same arrays in other wavelength units / as scalars (sampled) and '
-                'Quantities in units that are no wavelength; equivariance half: each entry point on random valid grids in Angstrom numbers '
+                'the same arrays (up to 3 entries) as Quantities in Angstrom and nm; Quantities in units that are no wavelength; equivariance half: each entry point on random valid grids in Angstrom numbers '
                 'and three of {AA, nm, micron, m, cm, km, Hz, THz, 1/micron, 1/cm} x ascending/descending, compared pairwise; a quarter of the grids finely sampled (2^-4 .. 2^-10 Angstrom spacing). '
                 'Non-trivial: the array is invalid (must be rejected) or the operation returned a value in every unit and order.' % len(entry_points_names()))
 
